@@ -224,6 +224,22 @@ func c02SysRun(sc c02Scenario, dir string, mode string, inject string) (res c02S
 		}
 		select {
 		case <-stDone:
+			// with an injection armed, a runtime thread may issue the call
+			// (e.g. the netpoller's wake-up write) and be killed before the
+			// release: that is a kill run like any other
+			select {
+			case werr := <-done:
+				if ee, ok := werr.(*exec.ExitError); ok && inject != "" {
+					if ws, ok := ee.Sys().(syscall.WaitStatus); ok && ws.Signaled() && ws.Signal() == syscall.SIGKILL {
+						res.killed = true
+						res.lines, _ = c02ParseStrace(logPath)
+						return res, nil
+					}
+				}
+				res.skipped = fmt.Sprintf("strace exited without attaching and the child ended with %v: %s", werr, firstN(stbuf.Bytes(), 300))
+				return res, nil
+			case <-time.After(5 * time.Second):
+			}
 			cmd.Process.Kill()
 			<-done
 			res.skipped = "strace exited without attaching: " + firstN(stbuf.Bytes(), 300)
